@@ -5,12 +5,13 @@ EXTENDS Accum, Randomization
 CONSTANTS MaxBatch
 XV == {Null, I(-1), I(0), I(1), I(2)}
 RowSet == XV \X XV
-R1 == RandomSubset(1, RowSet)
-GenBatches(minlen) == {SubSeq(<<r1, r2, r3>>, 1, k) : r1 \in R1, r2 \in R1, r3 \in R1,
+\* (RandomSubset is written out at every position: a nullary definition would be evaluated once and cached)
+GenBatches(minlen) == {SubSeq(<<r1, r2, r3>>, 1, k) : r1 \in RandomSubset(1, RowSet), r2 \in RandomSubset(1, RowSet),
+                                                  r3 \in RandomSubset(1, RowSet),
                                                   k \in RandomSubset(1, minlen..MaxBatch)}
 GenGroupVecs(len, cur) ==
   RandomSubset(1, {v \in [1..len -> 0..(MaxG - 1)] : Covers(v, cur, TotalOf(v, cur))})
 GenFilters(len) == RandomSubset(1, {<<>>} \cup RandomSubset(2, [1..len -> {0, 1, 2}]))
 GenPick(T) == IF T = {} THEN {} ELSE RandomSubset(1, T)
-GenPickK(T) == RandomSubset(2, T)
+GenPickK(T) == RandomSubset(3, T)
 =============================================================================
